@@ -169,7 +169,11 @@ func replayFinding(cfg CheckCfg, r HarnessResult, f Finding, modelPath string) s
 	if err != nil {
 		return "replay-error: " + err.Error()
 	}
-	defer os.RemoveAll(tmp)
+	if os.Getenv("VERIF_KEEPTMP") == "" {
+		defer os.RemoveAll(tmp)
+	} else {
+		fmt.Fprintln(os.Stderr, "replay dir:", tmp)
+	}
 	pkgdir := filepath.Join(repoMod, l.group.Pkg)
 	pkgName := l.pkg.Pkg.Name()
 	overlay := map[string]string{}
